@@ -24,7 +24,7 @@
 (* it is deviates from the statement (proposed_fixes/X01.md).                               *)
 EXTENDS X01MoveClassRef, Json
 
-CONSTANTS Histories,     \* set of histories (sequences of projects) to explore
+CONSTANTS Pool,          \* which set of histories (sequences of projects) to explore: see Histories at the end
           NameRule,      \* "last-decl": the moved class is found by node.Name = last class/interface entered (as is)
                          \* "file":      by the file it lives in (proposed_fixes/X01-1.patch)
           CopyNode,      \* FALSE: a copied file is unknown to the import rewriting of later moves (as is)
@@ -46,6 +46,76 @@ VARIABLES projects,      \* the history (input)
 
 vars == <<projects, pi, phase, pass, configPath, moveConfig, nodes, fi, mi, ni, disk, before, panic>>
 
+-----------------------------------------------------------------------------
+(* Input pools.  Everything that is a big set is built inside the branch of `Histories`    *)
+(* that the cfg selects (TLC evaluates every parameterless constant definition at start).  *)
+
+L(k, pre, name, post) == [k |-> k, pre |-> pre, name |-> name, post |-> post]
+T(s) == L("text", s, "", "")
+Pkg(n) == L("package", "", n, "")
+Imp(n) == L("import", "", n, "")
+File(pkg, name, eol, final, lines) == [pkg |-> pkg, name |-> name, eol |-> eol, final |-> final, lines |-> lines]
+Project(files, dirs, moves, analyses) == [files |-> files, dirs |-> dirs, moves |-> moves, analyses |-> analyses]
+Move(a, b) == [from |-> a, to |-> b]
+
+\* what may stand before the package line / between package line and imports
+Heads == {<<>>, <<T("// moved by hand"), T("")>>, <<T("/*"), T(" * import a.C;"), T(" */")>>}
+Gaps  == {<<>>, <<T("")>>}
+Eols  == {"\n", "\r\n"}
+
+\* bodies of a type: plain class, class with a nested class, enum, interface
+Body(name, shape) ==
+  CASE shape = "plain"  -> <<L("decl", "", name, "public class"), T("    private int n;"), T("}")>>
+    [] shape = "nested" -> <<L("decl", "", name, "public class"), L("decl", "    ", "Inner", "static class"), T("    }"), T("}")>>
+    [] shape = "enum"   -> <<L("decl", "", name, "public enum"), T("    RED, GREEN"), T("}")>>
+    [] shape = "iface"  -> <<L("decl", "", name, "public interface"), T("    void run();"), T("}")>>
+
+ImportPool == {Imp("a.C"), Imp("a.CX"), Imp("a.*"), L("static", "", "a.C.make", ""), L("import", "  ", "a.C", " // the C")}
+
+\* --- layout pools: the moved class a.C and one importer b.U; one move a.C -> t.C
+Moved(e, fin, h, b) == File("a", "C", e, fin, h \o <<Pkg("a")>> \o <<T("")>> \o Body("C", b))
+Importer(e, fin, h, g, il) == File("b", "U", e, fin, h \o <<Pkg("b")>> \o g \o il \o <<T("")>> \o Body("U", "plain"))
+LayoutHistory(m, u) == <<Project(<<m, u>>, <<"t">>, <<Move("a.C", "t.C")>>, 1)>>
+Shapes3 == {"plain", "nested", "enum"}
+
+\* --- multi / pair pools: fixed layout
+Plain(pkg, name, imports) == File(pkg, name, "\n", TRUE, <<Pkg(pkg)>> \o (IF imports = <<>> THEN <<>> ELSE <<T("")>> \o imports) \o <<T("")>> \o Body(name, "plain"))
+Lists2(S) == {<<>>} \cup {<<x>> : x \in S} \cup {p \in S \X S : p[1] # p[2]}
+Opt(S) == {<<>>} \cup {<<x>> : x \in S}
+
+Histories ==
+  CASE Pool = "layout-quick" ->
+         \* star: every moved file with the simplest importer, every importer with the simplest moved file, and every
+         \* importer header / import list with a CRLF moved file that declares a nested class
+         LET ImportLists == {<<x>> : x \in ImportPool} \cup {<<x, y>> : x, y \in ImportPool}
+             m0 == Moved("\n", TRUE, <<>>, "plain")
+             m1 == Moved("\r\n", FALSE, <<T("// moved by hand"), T("")>>, "nested")
+             u0 == Importer("\n", TRUE, <<>>, <<T("")>>, <<Imp("a.C")>>)
+         IN  {LayoutHistory(Moved(e, fin, h, b), u0) : e \in Eols, fin \in BOOLEAN, h \in Heads, b \in Shapes3 \cup {"iface"}}
+             \cup {LayoutHistory(m0, Importer(e, fin, h, g, il)) : e \in Eols, fin \in BOOLEAN, h \in Heads, g \in Gaps, il \in ImportLists}
+             \cup {LayoutHistory(m1, Importer("\r\n", TRUE, h, <<>>, il)) : h \in Heads, il \in ImportLists}
+    [] Pool = "layout" ->
+         \* product: every moved file with every importer
+         LET ImportLists == {<<x>> : x \in ImportPool} \cup {<<x, y>> : x, y \in ImportPool}
+         IN  {LayoutHistory(Moved(e1, f1, h1, b), Importer(e2, f2, h2, g, il))
+                : e1 \in Eols, f1 \in BOOLEAN, h1 \in Heads, b \in Shapes3, e2 \in Eols, f2 \in BOOLEAN, h2 \in Heads, g \in Gaps, il \in ImportLists}
+    [] Pool = "multi" ->
+         \* which classes exist, who imports whom, which moves in which order
+         LET ps == {Project(<<c>> \o d \o e \o cv \o u, <<"t", "s/deep">>, mv, 1)
+                      : c \in {Plain("a", "C", il) : il \in {<<>>, <<Imp("b.E")>>}},
+                        d \in Opt({Plain("a", "D", <<>>)}), e \in Opt({Plain("b", "E", <<>>)}),
+                        cv \in {<<>>, <<Plain("c", "C", <<>>), Plain("d", "V", <<Imp("c.C")>>)>>},
+                        u \in Opt({Plain("b", "U", il) : il \in Lists2({Imp("a.C"), Imp("a.D"), Imp("b.E")}) \ {<<>>}}),
+                        mv \in Lists2({Move("a.C", "t.C"), Move("a.D", "t.D"), Move("b.E", "t.E"), Move("c.C", "s.deep.C")}) \ {<<>>}}
+         IN  {<<p>> : p \in {q \in ps : ProjectOK(q)}}
+    [] Pool = "pair" ->
+         \* one or two projects in one process (the same class names in both), Analysis once or twice
+         LET ps == {Project(<<Plain("a", "C", <<>>)>> \o u, <<"t">>, mv, an)
+                      : u \in Opt({Plain("b", "U", <<Imp("a.C")>>), Plain("b", "U", <<Imp("a.C"), Imp("a.D")>>)}),
+                        mv \in {<<Move("a.C", "t.C")>>, <<>>}, an \in {1, 2}}
+                   \cup {Project(<<Plain("a", "C", <<>>), Plain("a", "D", <<>>), Plain("b", "U", <<Imp("a.D"), Imp("a.C")>>)>>, <<"t">>, mv, an)
+                           : mv \in {<<Move("a.D", "t.D")>>, <<Move("a.D", "t.D"), Move("a.C", "t.C")>>}, an \in {1, 2}}
+         IN  {<<p>> : p \in ps} \cup {<<p, q>> : p, q \in ps}
 -----------------------------------------------------------------------------
 (* rendering of the abstract input (the same as the Go renderer; BeforeOK checks it) *)
 
@@ -219,61 +289,4 @@ Emit == Finished => PrintT(<<"CASE", ToJson([input |-> Input])>>)
 ShowDiff == Finished => LET d == Diff([input |-> Input, observed |-> Observed])
                         IN  IF d = {} THEN TRUE ELSE PrintT(<<"NOTE", ToJson([input |-> Input, diff |-> d])>>)
 
------------------------------------------------------------------------------
-(* Input pools (cfg: Histories <- ...) *)
-
-L(k, pre, name, post) == [k |-> k, pre |-> pre, name |-> name, post |-> post]
-T(s) == L("text", s, "", "")
-Pkg(n) == L("package", "", n, "")
-Imp(n) == L("import", "", n, "")
-File(pkg, name, eol, final, lines) == [pkg |-> pkg, name |-> name, eol |-> eol, final |-> final, lines |-> lines]
-Project(files, dirs, moves, analyses) == [files |-> files, dirs |-> dirs, moves |-> moves, analyses |-> analyses]
-Move(a, b) == [from |-> a, to |-> b]
-
-\* what may stand before the package line / between package line and imports
-Heads == {<<>>, <<T("// moved by hand"), T("")>>, <<T("/*"), T(" * import a.C;"), T(" */")>>}
-Gaps  == {<<>>, <<T("")>>}
-
-\* bodies of the moved type C: plain class, class with a nested class, enum
-Body(name, shape) ==
-  CASE shape = "plain"  -> <<L("decl", "", name, "public class"), T("    private int n;"), T("}")>>
-    [] shape = "nested" -> <<L("decl", "", name, "public class"), L("decl", "    ", "Inner", "static class"), T("    }"), T("}")>>
-    [] shape = "enum"   -> <<L("decl", "", name, "public enum"), T("    RED, GREEN"), T("}")>>
-    [] shape = "iface"  -> <<L("decl", "", name, "public interface"), T("    void run();"), T("}")>>
-
-Eols == {"\n", "\r\n"}
-
-\* --- layout pool: the moved class a.C and one importer b.U; one move a.C -> t.C
-ImportPool == {Imp("a.C"), Imp("a.CX"), Imp("a.*"), L("static", "", "a.C.make", ""), L("import", "  ", "a.C", " // the C")}
-ImportLists == {<<x>> : x \in ImportPool} \cup {<<x, y>> : x, y \in ImportPool}
-MovedFiles == {File("a", "C", e, fin, h \o <<Pkg("a")>> \o <<T("")>> \o Body("C", b))
-                 : e \in Eols, fin \in BOOLEAN, h \in Heads, b \in {"plain", "nested", "enum"}}
-Importers == {File("b", "U", e, fin, h \o <<Pkg("b")>> \o g \o il \o <<T("")>> \o Body("U", "plain"))
-                : e \in Eols, fin \in BOOLEAN, h \in Heads, g \in Gaps, il \in ImportLists}
-HistoriesLayout == {<<Project(<<m, u>>, <<"t">>, <<Move("a.C", "t.C")>>, 1)>> : m \in MovedFiles, u \in Importers}
-HistoriesLayoutQuick ==
-  {<<Project(<<m, u>>, <<"t">>, <<Move("a.C", "t.C")>>, 1)>>
-     : m \in {x \in MovedFiles : x.final \/ x.eol = "\n"}, u \in {x \in Importers : x.eol = "\n" \/ x.final}}
-
-\* --- multi pool: fixed layout; which classes exist, who imports whom, which moves in which order
-Plain(pkg, name, imports) == File(pkg, name, "\n", TRUE, <<Pkg(pkg)>> \o (IF imports = <<>> THEN <<>> ELSE <<T("")>> \o imports) \o <<T("")>> \o Body(name, "plain"))
-Lists2(S) == {<<>>} \cup {<<x>> : x \in S} \cup {p \in S \X S : p[1] # p[2]}
-Opt(S) == {<<>>} \cup {<<x>> : x \in S}
-ProjectsMulti ==
-  {Project(<<c>> \o d \o e \o c2 \o u \o v, <<"t", "s/deep">>, mv, 1)
-     : c \in {Plain("a", "C", il) : il \in {<<>>, <<Imp("b.E")>>}},
-       d \in Opt({Plain("a", "D", <<>>)}), e \in Opt({Plain("b", "E", <<>>)}), c2 \in Opt({Plain("c", "C", <<>>)}),
-       u \in Opt({Plain("b", "U", il) : il \in Lists2({Imp("a.C"), Imp("a.D"), Imp("b.E")}) \ {<<>>}}),
-       v \in Opt({Plain("d", "V", <<Imp("c.C")>>)}),
-       mv \in Lists2({Move("a.C", "t.C"), Move("a.D", "t.D"), Move("b.E", "t.E"), Move("c.C", "s.deep.C")})}
-HistoriesMulti == {<<p>> : p \in {q \in ProjectsMulti : ProjectOK(q) /\ q.moves # <<>>}}
-
-\* --- pair pool: two projects in one process (same class names in both), Analysis once or twice
-ProjectsPair ==
-  {Project(<<Plain("a", "C", <<>>)>> \o u, <<"t">>, mv, an)
-     : u \in Opt({Plain("b", "U", <<Imp("a.C")>>), Plain("b", "U", <<Imp("a.C"), Imp("a.D")>>)}),
-       mv \in {<<Move("a.C", "t.C")>>, <<>>}, an \in {1, 2}}
-  \cup {Project(<<Plain("a", "C", <<>>), Plain("a", "D", <<>>), Plain("b", "U", <<Imp("a.D"), Imp("a.C")>>)>>, <<"t">>, mv, an)
-          : mv \in {<<Move("a.D", "t.D")>>, <<Move("a.D", "t.D"), Move("a.C", "t.C")>>}, an \in {1, 2}}
-HistoriesPair == {<<p>> : p \in ProjectsPair} \cup {<<p, q>> : p, q \in ProjectsPair}
 =============================================================================
